@@ -119,6 +119,11 @@ func directedHistories() map[string]History {
 	// every validator with power removed within one block (the last removal must be refused), by the admin and by themselves
 	out["S16-remove-everybody-in-one-block"] = History{g3, cat(empty(2, 1), []BlockSpec{blk(tx(rm(adminID, 0)), tx(rm(adminID, 1)), tx(rm(adminID, 2)))}, empty(3, 1))}
 	out["S16b-everybody-leaves-in-one-block"] = History{g3, cat(empty(2, 1), []BlockSpec{blk(tx(rm(2, 2)), tx(rm(0, 0)), tx(rm(1, 1)))}, empty(3, 1))}
+	// a long pending queue: applications 3..7, one withdrawn, one admitted, one withdrawn again (order of the rest must stay)
+	out["S17-long-pending-queue"] = History{g3, cat(empty(1, 1), []BlockSpec{blk(tx(createMsg(3, 3)), tx(createMsg(4, 4))), blk(tx(createMsg(5, 5)), tx(createMsg(6, 6)), tx(createMsg(7, 7))),
+		blk(tx(MsgSpec{Kind: "removepending", Sender: adminID, Val: 4})), blk(tx(sp(adminID, 6, 2*M, true))), blk(tx(MsgSpec{Kind: "removepending", Sender: adminID, Val: 3}))}, empty(2, 1))}
+	// a request for the power the validator already has, with a token amount that is not a multiple of 10^6
+	out["S18-same-power-other-tokens"] = History{g3, cat(empty(2, 1), []BlockSpec{blk(tx(sp(adminID, 0, 10*M+500_000, true)))}, []BlockSpec{blk(tx(sp(adminID, 1, 12*M+500_000, true)))}, []BlockSpec{blk(tx(sp(adminID, 1, 12*M+700_000, true)))}, empty(2, 1))}
 	upCreate := createMsg(3, 4)
 	upCreate.Upper = true
 	upSp := sp(adminID, 3, 2*M, true)
